@@ -1,11 +1,13 @@
 (** C09 — Output history is never dropped while needed and never grows unboundedly.
     Model: FV.OutputM (Output.push_data / get_data / _clear_data / _interpolate).
     This file contains only statements; proofs are in FVP.OutputM_proofs. *)
-From Coq Require Import List ZArith Bool.
+From Coq Require Import List ZArith QArith Bool.
 From FV Require Import Base OutputM.
 From FVP Require Import OutputM_proofs.
 From FV Require Sched.
 From FVP Require Sched_proofs Confluence_proofs Trace_proofs.
+From FV Require TimeInterp.
+From FVP Require TimeInterp_proofs TimeBuffer_proofs.
 Import ListNotations.
 Open Scope Z_scope.
 
@@ -54,6 +56,24 @@ Theorem C09_requests_recorded :
     st_conn (final (init keys) ops) = st_conn (final_unb (init keys) ops).
 Proof. intros A. exact (@conn_same A). Qed.
 
+(** Consumers behind a push-based time adapter (NextTime / PreviousTime / LinearTime / StepTime): the adapter consumes
+    the output's history at every publication, and what grows is the adapter's own buffer ([TimeCachingAdapter.data],
+    model FV.TimeInterp).  For every adapter kind and every valid script of publications and requests (any length):
+    the buffer is a suffix of the publication history; nothing is dropped before the first request was served;
+    afterwards its first entry is at or before the last served request [l] and it holds at most one entry more than
+    there are publications newer than [l] — the same bound as [C09_bounded], one level further down the link. *)
+Theorem C09_adapter_buffer_bounded :
+  forall (k : TimeInterp.kind) (ops : list TimeInterp.op),
+    TimeInterp_proofs.valid [] None ops ->
+    exists pre, TimeInterp.pubs [] ops = pre ++ TimeInterp.final true k [] ops
+      /\ match TimeInterp_proofs.lastreq [] None ops with
+         | None => pre = []
+         | Some l => (exists e0 r, TimeInterp.final true k [] ops = e0 :: r /\ fst e0 <= l)
+                     /\ (length (TimeInterp.final true k [] ops)
+                           <= 1 + TimeBuffer_proofs.newer_than l (TimeInterp.pubs [] ops))%nat
+         end.
+Proof. exact TimeBuffer_proofs.buffer_bounded. Qed.
+
 (** The hypothesis "non-decreasing request times per consumer" is what the driver's own consumers satisfy: in the
     scheduler model (FV.Sched) the time that reaches the source over a link of pass-through adapters and fixed delays
     ([pe_chain], proved equal to the real pull in Trace_proofs.pull_chain_stateless) at the j-th update of a
@@ -99,9 +119,21 @@ Example C09_suffix_nonvacuous :
   /\ conn_min (st_conn (final (init [1; 2]%nat) ex_ops)) = Some 35.
 Proof. vm_compute. repeat split. Qed.
 
+(** Non-vacuity of the buffer bound: five publications, requests at 5 and 25; two entries are retained. *)
+Definition ex_aops : list TimeInterp.op :=
+  [TimeInterp.Push 0 (1 # 1)%Q; TimeInterp.Push 10 (2 # 1)%Q; TimeInterp.Pull 5; TimeInterp.Push 20 (3 # 1)%Q;
+   TimeInterp.Push 30 (5 # 1)%Q; TimeInterp.Pull 25; TimeInterp.Push 40 (8 # 1)%Q].
+Example C09_adapter_buffer_nonvacuous :
+  TimeInterp_proofs.valid [] None ex_aops
+  /\ TimeInterp_proofs.lastreq [] None ex_aops = Some 25
+  /\ map fst (TimeInterp.final true TimeInterp.KLinear [] ex_aops) = [20; 30; 40]
+  /\ TimeBuffer_proofs.newer_than 25 (TimeInterp.pubs [] ex_aops) = 2%nat.
+Proof. split; [vm_compute; intuition discriminate|]. vm_compute. auto. Qed.
+
 Print Assumptions C09_refines_unbounded.
 Print Assumptions C09_bounded.
 Print Assumptions C09_driver_requests_nondecreasing.
 Print Assumptions C09_driver_blocks_monotone.
 Print Assumptions C09_retained_is_newest_suffix.
 Print Assumptions C09_requests_recorded.
+Print Assumptions C09_adapter_buffer_bounded.
